@@ -74,7 +74,37 @@ PIPELINES = [
              note='arbitrary NUL-terminated string of any length: no read past the NUL, no signed overflow, exception class, consumption'),
 ]
 
-TRUSTED = []
+
+# ------------------------------------------------------------------ U2: append_location_coordinate_to_string<char*> and L1 round trip
+U_fmt = Unit(LOC, 'append_location_coordinate_to_string', bind={'T': 'char*'}, ret='char*')
+ENUMS = 'enum { coordinate_precision = 10000000 };\n'
+H_FMT = '''
+void harness(void) {
+  int32_t x; char buf[13]; verif_exc = 0;
+  char* e = append_location_coordinate_to_string(buf, x);
+  __CPROVER_assert(__CPROVER_same_object(e, buf) && e - buf >= 1 && e - buf <= 12, "U2 writes between 1 and 12 characters (documented maximum)");
+  __CPROVER_assert(buf[0] == '-' || (buf[0] >= '0' && buf[0] <= '9'), "U2 starts with sign or digit");
+  __CPROVER_assert(e[-1] != '.' && (e[-1] != '0' || e - buf == 1 || (e - buf == 2 && buf[0] == '-') || e[-2] != '.' ), "U2 no trailing decimal point");
+  *e = 0;
+  const char* p = buf; const char** d = &p;
+  ghost_n = e - buf;
+  int32_t r = string_to_location_coordinate(d);
+  __CPROVER_assert(verif_exc == 0, "L1 the written text is accepted by the parser");
+  __CPROVER_assert(r == x, "L1 parse(format(x)) == x");
+  __CPROVER_assert(p == e, "L1 the parser consumes exactly the written text");
+  __CPROVER_assert(0, "canary");
+}
+'''
+L1_UNWINDSET = {'string_to_location_coordinate.0': 11, 'string_to_location_coordinate.1': 9, 'string_to_location_coordinate.2': 21,
+                'string_to_location_coordinate.3': 6, 'string_to_location_coordinate.4': 20, 'string_to_location_coordinate.5': 10,
+                'append_location_coordinate_to_string.0': 11, 'append_location_coordinate_to_string.1': 8,
+                'append_location_coordinate_to_string.2': 11, 'append_location_coordinate_to_string.3': 11, 'copy_n.0': 13}
+PIPELINES.append(Pipeline('L1_roundtrip_direct', units=[U_fmt, U_s2c], prelude=GHOST + ENUMS, defines=['VERIF_STUB_BODIES'],
+                          harness=H_FMT, unwind=24, unwindset=L1_UNWINDSET, loop_contracts=False, solver='kissat', timeout=1500, tier='thorough',
+                          replay=('c13_text', lambda cex, o: ['fmt', cex.first('x', 0)]),
+                          note='both real bodies inlined; every loop is bounded by a constant (digits of an int32, the parser\'s own digit limits), so unwinding with unwinding assertions is complete: all 2^32 coordinates'))
+
+TRUSTED = ['std::copy_n on char ranges (C++ standard; stub body in stubs/base.h)']
 ASSUMPTIONS = ['input strings are NUL-terminated and shorter than 100000 bytes (object-size bound of the CBMC memory model; loop contracts make the proof independent of the length)']
 NOT_DECIDED = ['Location::set_lon(double) rounding (std::round)', 'calendar arithmetic of timegm/gmtime_r (libc)']
 LEVEL_TEXT = 'x'
